@@ -3,13 +3,26 @@ import EudoxiaModel.Model.Store
 namespace Eudoxia
 open OpState
 
+/-- (I/O ticks, CPU ticks) of every segment of an operator, from the documented formulas -/
+def rawTickTable (cfg : Cfg) (cpu : Nat) (segs : List Seg) : List (Nat Ã— Nat) :=
+  segs.map (fun sg => (sg.ioTicks cfg, sg.cpuTicks cfg cpu))
+
+def tickSum (t : List (Nat Ã— Nat)) : Nat := (t.map (fun x => x.1 + x.2)).sum
+
+/-- an operator occupies at least one tick: if all of its segments round down to zero ticks,
+    the last one runs for a single (CPU phase) tick -/
+def opTickTable (cfg : Cfg) (cpu : Nat) (segs : List Seg) : List (Nat Ã— Nat) :=
+  let t := rawTickTable cfg cpu segs
+  if !segs.isEmpty && tickSum t == 0 then t.dropLast ++ [(0, 1)] else t
+
 /-- position of the generator `_tick_generator`, between two `yield`s -/
 structure Pos where
-  ops : List (Nat Ã— List Seg)   -- operators not yet finished, with their segments
-  started : Bool := false       -- has the head operator's RUNNING transition happened
-  segs : List Seg := []         -- remaining segments of the head operator (head = current)
-  i : Nat := 0                  -- next iteration of the current segment
-  opTicks : Nat := 0            -- ticks of the already finished segments of the head operator
+  ops : List (Nat Ã— List Seg)            -- operators not yet finished, with their segments
+  started : Bool := false                -- has the head operator's RUNNING transition happened
+  segs : List (Seg Ã— Nat Ã— Nat) := []    -- remaining segments of the head operator with their (io, cpu) ticks
+  i : Nat := 0                           -- next iteration of the current segment
+  opDone : Nat := 0                      -- ticks of the head operator already executed
+  opTotal : Nat := 0                     -- ticks the head operator takes in all
 deriving Repr, Inhabited
 
 structure Ctr where
@@ -34,11 +47,9 @@ deriving Repr, Inhabited
 def Ctr.setMem (c : Ctr) (m : Nat) (cons : Int) : Ctr Ã— Int :=
   ({ c with mem := m }, cons + ((m : Int) - (c.mem : Int)))
 
-/-- ticks of the current segment: an operator whose segments all round to zero ticks
-    still occupies one (CPU-phase) tick of its last segment -/
-def segTicks (cfg : Cfg) (cpu : Nat) (opTicks : Nat) (sg : Seg) (more : List Seg) : Nat :=
-  let t := sg.total cfg cpu
-  if more.isEmpty && opTicks + t == 0 then 1 else t
+/-- memory demand in iteration `i` of a segment with `io` I/O ticks -/
+def segMem (cfg : Cfg) (sg : Seg) (io : Nat) (i : Nat) : Nat :=
+  if i < io then (match sg.fixed with | some m => m | none => (i + 1) * cfg.g) else sg.peak
 
 /-- advance the generator to its next `yield` (`next(self._tick_iter)`) -/
 def advance (cfg : Cfg) (w : Store) (c : Ctr) (cons : Int) : Except Err (Store Ã— Ctr Ã— Int) :=
@@ -49,17 +60,18 @@ def advance (cfg : Cfg) (w : Store) (c : Ctr) (cons : Int) : Except Err (Store Ã
     if hs : !c.pos.started then
       match w.transition r running with
       | .error e => .error e
-      | .ok w' => advance cfg w' { c with pos := { c.pos with started := true, segs := allsegs, i := 0, opTicks := 0 } } cons
+      | .ok w' =>
+        let tbl := opTickTable cfg c.cpu allsegs
+        advance cfg w' { c with pos := { c.pos with started := true, segs := allsegs.zip tbl, i := 0, opDone := 0, opTotal := tickSum tbl } } cons
     else match hsg : c.pos.segs with
-      | [] => advance cfg w { c with pos := { ops := rest, started := false, segs := [], i := 0, opTicks := 0 } } cons
-      | sg :: more =>
-        let total := segTicks cfg c.cpu c.pos.opTicks sg more
-        if c.pos.i < total then
-          let (c1, cons1) := c.setMem (sg.memAt cfg c.pos.i) cons
+      | [] => advance cfg w { c with pos := { ops := rest, started := false, segs := [], i := 0, opDone := 0, opTotal := 0 } } cons
+      | (sg, io, cpuT) :: more =>
+        if c.pos.i < io + cpuT then
+          let (c1, cons1) := c.setMem (segMem cfg sg io c.pos.i) cons
           if c1.mem > c1.ram then .ok (w, { c1 with frozen := true }, cons1)
           else
-            let c2 := { c1 with canSuspend := false, pos := { c1.pos with i := c1.pos.i + 1 } }
-            if more.isEmpty && c.pos.i + 1 == total then
+            let c2 := { c1 with canSuspend := false, pos := { c1.pos with i := c1.pos.i + 1, opDone := c1.pos.opDone + 1 } }
+            if c.pos.opDone + 1 == c.pos.opTotal then
               match w.transition r completed with
               | .error e => .error e
               | .ok w' =>
@@ -69,7 +81,7 @@ def advance (cfg : Cfg) (w : Store) (c : Ctr) (cons : Int) : Except Err (Store Ã
                   .ok (w', c4, cons4)
                 else .ok (w', { c3 with canSuspend := true }, cons1)
             else .ok (w, c2, cons1)
-        else advance cfg w { c with pos := { c.pos with segs := more, i := 0, opTicks := c.pos.opTicks + total } } cons
+        else advance cfg w { c with pos := { c.pos with segs := more, i := 0 } } cons
 termination_by (c.pos.ops.length, (if c.pos.started then 0 else 1), c.pos.segs.length)
 decreasing_by
   all_goals simp_wf
